@@ -180,6 +180,14 @@ def ceil_div_ok(e, lenc='len', C=None):
             want = {k: v for k, v in want.items() if v != 0}
             if {k: v for k, v in rest.items() if v != 0} == want:
                 return True
+    if m(('call~', 'div_ceil', ('$n', '$c')), e) is not None:
+        return True
+    # if len % C > 0 { len / C + 1 } else { len / C }
+    for cmp_, neg in (('Gt', False), ('Ne', False), ('Eq', True)):
+        hi, lo = ('bin', 'Add', ('bin', 'Div', '$n', '$c'), ('k', 1)), ('bin', 'Div', '$n', '$c')
+        pat = ('ite', ('bin', cmp_, ('bin', 'Rem', '$n', '$c'), ('k', 0)), lo if neg else hi, hi if neg else lo)
+        if m(pat, e) is not None:
+            return True
     for pat in (('bin', 'Add', ('bin', 'Div', '$n', '$c'), ('cast', ('bin', 'Gt', ('bin', 'Rem', '$n', '$c'), ('k', 0)), 'usize', '_')),
                 ('bin', 'Add', ('bin', 'Div', '$n', '$c'), ('bin', 'Gt', ('bin', 'Rem', '$n', '$c'), ('k', 0))),
                 ('bin', 'Add', ('bin', 'Div', '$n', '$c'), ('bin', 'Ne', ('bin', 'Rem', '$n', '$c'), ('k', 0)))):
@@ -195,7 +203,7 @@ def r44(db, ctx):
         ctx.fail('R4.4', 'lightmotif::pli::Stripe::stripe_into', 'default body', 'reason=anchor-missing')
         return
     f = fs[0]
-    R = X.Rec(f)
+    R = X.Rec(f, ite=True)      # `if r > 0 { q + 1 } else { q }` is a value, not two unrelated definitions
     st = [s for s in X.stores(f, R) if norm(s['target'])[0] == 'idx' and norm(s['target'])[1][0] == 'call' and norm(s['target'])[1][1].endswith('index_mut')]
     probs = []
     place = fillst = None
@@ -209,6 +217,8 @@ def r44(db, ctx):
         ctx.fail('R4.4', f, 'placement', 'reason=unrecognised-shape')
         return
     rows_e = None
+    from lm import iteralg
+    CA = iteralg.Canon(f, R)
     for tg, v in (place, fillst):
         row, col = tg[1][2][1], tg[2]
         b = m(('bin', 'Rem', '$i', '$r'), row)
@@ -218,13 +228,29 @@ def r44(db, ctx):
             continue
         rows_e = b['$r']
         i = b['$i']
+        ic = CA.canon(i)
         if tg is place[0]:
-            pi = m(('fld', ('elem', ('call~', 'enumerate', ('$s',)), '$L'), '0'), i)
-            pv = m(('fld', ('elem', ('call~', 'enumerate', ('$s',)), '$L'), '1'), v)
-            if pi is None or pv is None or pi != pv:
-                probs.append('placed value is not symbol i of enumerate(seq)')
+            # the placed value is symbol i of the sequence, for every i in 0..len (enumerate or index loop)
+            vc = CA.canon(v)
+            pv = m(('at', '$s', '$i2'), vc)
+            ext = CA.extents.get(ic[1], []) if iteralg.is_pos(ic) else []
+            whole = bool(ext) and pv is not None and all((c_[0] == 'len' and c_[1] == pv['$s']) or (c_[0] == 'sub' and c_[2] == ('k', 0) and common.is_len_of(c_[1], pv['$s'])) for c_ in ext)
+            if pv is None or pv['$i2'] != ic or not whole:
+                probs.append('placed value is not symbol i of the sequence for every i in 0..len')
         else:
-            if not (i[0] == 'elem' and common.is_len_of(i[1][2][0]) and common.is_product_of_calls(i[1][2][1], ['DenseMatrix::columns', 'DenseMatrix::rows'])):
+            # fill: i in len .. R*C  (rows()*columns() of the resized matrix, or R * C::USIZE with the same R)
+            ok_fill = False
+            if i[0] == 'elem' and i[1][0] == 'agg' and len(i[1][2]) == 2 and common.is_len_of(i[1][2][0]):
+                hi = i[1][2][1]
+                if common.is_product_of_calls(hi, ['DenseMatrix::columns', 'DenseMatrix::rows']):
+                    ok_fill = True
+                else:
+                    mm = m(('bin', 'Mul', '$a', '$b'), hi)
+                    if mm is not None:
+                        for x, y in ((mm['$a'], mm['$b']), (mm['$b'], mm['$a'])):
+                            if x == rows_e and (common.is_usize_const(y, 'C') or common.is_call_to(y, 'DenseMatrix::columns')):
+                                ok_fill = True
+            if not ok_fill:
                 probs.append(f'fill range {X.show(i[1], 80)} is not len .. rows*columns')
     if rows_e is not None and not ceil_div_ok(rows_e):
         probs.append(f'R = {X.show(rows_e, 80)} is not ceil(len / C)')
@@ -241,7 +267,7 @@ def r44(db, ctx):
     for path, callee, ai in sites:
         gs = [g for g in db.by_short.get(path, [])] or ([db.fns[path]] if path in db.fns else [])
         for g in gs:
-            RG = X.Rec(g)
+            RG = X.Rec(g, ite=True)
             for bi, t in g.calls():
                 if (g.callee_short(t) or '').endswith(callee):
                     a = norm(RG.operand(t['args'][ai]))
